@@ -712,6 +712,34 @@ func c09Seq(t *testing.T) {
 		ev.NontrivialAdd(n)
 		ev.Count(fmt.Sprintf("sequential_words_cap%d_file%v", real, cfg.file), n)
 	}
+	// file-backed pipes beyond their first lap (quick tier too): a lagging reader, writes across the
+	// ring end, three laps; power-of-two and non-power-of-two ring sizes
+	if si, _ := ev.ShardInfo(); si == 0 {
+		var n int64
+		for _, capn := range []int{FileSizeAlign, 3 * FileSizeAlign} {
+			real := align(capn, FileSizeAlign)
+			q := real / 4
+			W := func(k int) string { return fmt.Sprintf("W%d", k) }
+			R := func(k int) string { return fmt.Sprintf("R%d", k) }
+			for _, word := range [][]string{
+				{W(3 * q), R(2 * q), W(2 * q), R(real), R(real), W(3 * q), R(q), W(2 * q), R(real), R(real), R(real), "wc", R(1)},
+				{W(real), R(1), W(1), R(real), R(real), W(real - 1), R(real - 2), W(real - 1), R(real), R(real), "wce", R(real)},
+				{W(q + 1), R(q), W(real - 1), R(real), R(real), W(real), R(real), R(real)},
+			} {
+				if why := c09SeqWord(capn, true, word); why != "" {
+					ev.Violate("C09|file-laps|"+why[strings.Index(why, "(")+1:strings.Index(why, "(")+2], fmt.Sprintf("file-backed pipe of capacity %d, operations %v: %s", real, word, why),
+						c09Replay{Sub: "seq", Scenario: c09Scenario{Cap: capn, File: true}, Word: append([]string{}, word...)})
+				}
+				n++
+			}
+		}
+		ev.Eval(n)
+		ev.Trace(n)
+		ev.Trans(n * 10)
+		ev.StatesAdd(n)
+		ev.NontrivialAdd(n)
+		ev.Count("file_pipe_lap_words", n)
+	}
 	ev.Sample("sequential", []string{"W4095", "R4094", "W4096", "B", "R4097", "wc"})
 }
 
